@@ -560,8 +560,12 @@ func (a *Act) callByContract(st *State, callee *ssa.Function, fc *FuncContract, 
 	}
 	// ghost state: the output counter and the event trace are not covered by modifies clauses
 	if !fc.NoFrame {
-		if clauseMentions(fc, "outlen") || u.E.mayOutput(callee, map[*ssa.Function]bool{}) {
+		if clauseMentions(fc, "outlen") || clauseMentions(fc, "outok") || u.E.mayOutput(callee, map[*ssa.Function]bool{}) {
 			st.setHeap(outHeap, "Int", u.D.Fresh("out", "Int"))
+			okOld := st.heap(outOKHeap, "Bool")
+			okNew := u.D.Fresh("outok", "Bool")
+			u.Fact(implies(okNew, okOld)) // once a write has failed the flag stays false
+			st.setHeap(outOKHeap, "Bool", okNew)
 		}
 		if fc.CallbackRank != nil || clauseMentions(fc, "tlen") {
 			l0 := st.heap(traceLen, "Int")
@@ -627,6 +631,11 @@ func (a *Act) havocTargets(st, pre *State, penv *Env, callee *ssa.Function, fc *
 			continue
 		}
 		for _, me := range cl.Mods {
+			if id, ok := me.(*EIdent); ok && id.Name == "globals" {
+				// package-level variables: every cell heap may change at the addresses of globals (coarse: havoc all)
+				a.havocAll(st)
+				return
+			}
 			info, err := a.modTarget(callee, me)
 			if err != nil {
 				u.Errors = append(u.Errors, fmt.Sprintf("%s: modifies %s: %v", fnName(callee), me, err))
@@ -821,11 +830,16 @@ func (a *Act) frameObligations(out *State, fc *FuncContract) {
 	u := a.u
 	penv := a.fnEnv(a.fn, a.params, a.free, a.entry, a.entry, nil)
 	targets := map[string][]func(r Term) Term{}
+	globalsFree := false
 	for _, cl := range fc.Clauses {
 		if cl.Kind != "modifies" {
 			continue
 		}
 		for _, me := range cl.Mods {
+			if id, ok := me.(*EIdent); ok && id.Name == "globals" {
+				globalsFree = true
+				continue
+			}
 			info, err := a.modTarget(a.fn, me)
 			if err != nil {
 				u.Errors = append(u.Errors, fmt.Sprintf("%s: modifies %s: %v", u.Name, me, err))
@@ -844,7 +858,7 @@ func (a *Act) frameObligations(out *State, fc *FuncContract) {
 	sort.Strings(names)
 	for _, n := range names {
 		srt := u.heapSort[n]
-		if _, isTrace := traceSorts[n]; isTrace || strings.HasPrefix(n, "G_") || strings.HasPrefix(n, "T_arg_") || n == outHeap {
+		if _, isTrace := traceSorts[n]; isTrace || strings.HasPrefix(n, "G_") || strings.HasPrefix(n, "T_arg_") || n == outHeap || n == outOKHeap {
 			continue // ghost state
 		}
 		init := u.heapInit(n, srt)
@@ -852,6 +866,13 @@ func (a *Act) frameObligations(out *State, fc *FuncContract) {
 			continue
 		}
 		cs := []Term{app("<", app("rid", "r"), u.alloc0), app("<", "0", app("rid", "r"))}
+		if globalsFree {
+			for c, srt := range u.D.consts {
+				if strings.HasPrefix(c, "G_") && srt == "Ref" && !strings.Contains(c, "!") {
+					cs = append(cs, not(eq("r", c)))
+				}
+			}
+		}
 		for _, p := range targets[n] {
 			cs = append(cs, not(p("r")))
 		}
